@@ -9,6 +9,17 @@ from verif.engine.unit import Unit
 from verif.engine.values import SFrame, SObj, SSeq, STensor
 
 PROPERTY = 'C05'
+MANIFEST = {
+    'level_text': 'Proved for all table sizes / site counts (relative to the assumed numpy contracts): the count matrix is exact cell by cell '
+                  '(np.unique-rows + fancy assignment incl. negative-index wrap), empty diagonal for jump tables, callee preconditions of the '
+                  'thin callers, scalar structure and summand of jump_diffusivity. Bounded only: matrix total = number of jumps, per-label '
+                  'counter, graph edge set, occupancies (exhaustive small tables + seeded random histories on the real classes). '
+                  'Transitions.matrix() with NOSITE rows is the recorded known finding C05-nosite-fold.',
+    'level_note': 'Trusted: numpy contracts (unique(axis=0,return_counts), fancy assignment, sum), pandas column access, pymatgen '
+                  'get_all_distances as uninterpreted mindist, FloatWithUnit as float, integers unbounded, floats as reals, pyvc itself.',
+    'technique': 'deductive: VCs from the real AST of _calculate_transitions_matrix / Jumps.matrix / Jumps.jump_diffusivity discharged by z3; '
+                 'counter-models by finite-scope grounding replayed on the real code; bounded stand-ins for the aggregate clauses',
+}
 UNITS = ['unit_matrix', 'unit_matrix_nosite', 'unit_jumps_matrix', 'unit_diffusivity']
 BOUNDED = ['bounded_matrix', 'bounded_bookkeeping']
 META = {
